@@ -135,7 +135,7 @@ def parseControlFile (data : Bytes) : M (Option ControlFile) := do
     else pure (0, false) : M (Nat × Bool))
   return some
     { pgControlVersion, catalogVersionNo, systemIdentifier, state, stateString,
-      checkpointLSN := formatLSN checkpointLSN, redoLSN := formatLSN redoLSN, redoWALFile,
+      checkpointLSN := ctlFormatLSN checkpointLSN, redoLSN := ctlFormatLSN redoLSN, redoWALFile,
       timeLineID, prevTimeLineID, fullPageWrites, nextXIDEpoch, nextXID, nextOID, nextMulti, nextMultiOffset,
       oldestXID, oldestXIDDB, oldestActiveXID, oldestMulti, oldestMultiDB, oldestCommitTsXID, newestCommitTsXID,
       checkpointTime := cpTime, walLevel := cfg.walLevel, walLogHints := cfg.walLogHints,
